@@ -163,7 +163,7 @@ def run_check(modname, tier="quick", seed=0, update_ledger=False, only_case=None
     jobs = [(modname, c, tier, seed) for c in cases]
     if nproc > 1 and len(jobs) > 1:
         ctx = mp.get_context("fork")
-        with ctx.Pool(min(nproc, len(jobs))) as pool:
+        with ctx.Pool(min(nproc, len(jobs)), maxtasksperchild=1) as pool:  # one fresh forked process per case: no cross-case state
             outs = pool.map(_worker, jobs, chunksize=1)
     else:
         outs = [_worker(j) for j in jobs]
